@@ -229,6 +229,12 @@ pub fn check_http_case(c: &HttpDbCase, st: &mut Stats) -> Result<(), Fail> {
                 }
             }
         }
+        // header-less and single-header messages are observations too
+        if *drop == 4 {
+            horder.clear();
+        } else if *drop == 5 {
+            horder.truncate(1);
+        }
         let habsent: Vec<dh::Header> = [vec![], vec![dh::Header::new("Keep-Alive")], vec![dh::Header::new("Accept-Charset"), dh::Header::new("Keep-Alive")]][(*asel % 3) as usize].clone();
         let expsw = ["", "Firefox/", "curl/", "nginx", "Mozilla/5.0 Firefox/3.6"][(*ssel % 5) as usize].to_string();
         st.evals += 1;
@@ -284,9 +290,9 @@ pub fn run(ctx: &Ctx) {
     let n = ctx.tier.pick(25_000, 400_000);
     ctx.run_prop(
         "http-generated-databases",
-        "proptest clustered HTTP databases (versions 0/1/*, 5 header lists with optional headers, 3 absent lists, 4 software strings) x 60 observations each over HTTP/1.0, 1.1, 2 and 3 (database lists with dropped / changed headers) vs exhaustive scan, request and response tables, also through huginn_net_http::SignatureMatcher; non-trivial: >= 2 accepting entries or a `*`-version winner",
+        "proptest clustered HTTP databases (versions 0/1/*, 5 header lists with optional headers, 3 absent lists, 4 software strings) x 60 observations each over HTTP/1.0, 1.1, 2 and 3 (database lists with dropped / changed headers, incl. header-less and single-header messages) vs exhaustive scan, request and response tables, also through huginn_net_http::SignatureMatcher; non-trivial: >= 2 accepting entries or a `*`-version winner",
         n,
-        || (vec(prop_oneof![1 => Just(vec![]), 9 => vec(clustered_http_sig(), 1..4)], 1..25), vec((0u8..4, any::<u16>(), 0u8..4, 0u8..3, 0u8..5), 60)).prop_map(|(db, obs)| HttpDbCase { db, obs }),
+        || (vec(prop_oneof![1 => Just(vec![]), 9 => vec(clustered_http_sig(), 1..4)], 1..25), vec((0u8..4, any::<u16>(), 0u8..6, 0u8..3, 0u8..5), 60)).prop_map(|(db, obs)| HttpDbCase { db, obs }),
         |c: &HttpDbCase, st: &mut Stats| {
             st.evals = st.evals.saturating_sub(1);
             st.sample(|| json!({"labels": c.db.len(), "first_sig": c.db.iter().flatten().next().map(|x| format!("{}", x.db())), "obs0": format!("{:?}", c.obs[0])}));
